@@ -198,13 +198,13 @@ func (st *State) runLoop(lp *loopParts) []Outcome {
 		c := h.clone()
 		cv := c.cond(lp)
 		exitSt := c.clone()
-		exitSt.facts = exitSt.facts.push(guarded(exitSt.guard, sNot(cv)))
+		exitSt.addFact(guarded(exitSt.guard, sNot(cv)))
 		if lp.exit != nil {
 			lp.exit(exitSt)
 		}
 		outs = append(outs, Outcome{st: exitSt, kind: oNormal})
 		bodyState = c
-		bodyState.facts = bodyState.facts.push(guarded(bodyState.guard, cv))
+		bodyState.addFact(guarded(bodyState.guard, cv))
 	}
 	if spec.Decreases != nil {
 		dec0 = bodyState.define("variant", "Int", envAt(bodyState).eval(spec.Decreases.Expr).S)
@@ -318,13 +318,13 @@ func (st *State) unrollLoop(lp *loopParts, n int) []Outcome {
 				}
 				if c != "true" {
 					e := s.clone()
-					e.facts = e.facts.push(guarded(e.guard, sNot(c)))
+					e.addFact(guarded(e.guard, sNot(c)))
 					if lp.exit != nil {
 						lp.exit(e)
 					}
 					outs = append(outs, Outcome{st: e, kind: oNormal})
 					bodySt = s.clone()
-					bodySt.facts = bodySt.facts.push(guarded(bodySt.guard, c))
+					bodySt.addFact(guarded(bodySt.guard, c))
 				}
 			}
 			if iter == n {
